@@ -91,6 +91,13 @@ func Conv(ty string, a *Term) *Term {
 	if a.Op == "c" && (ty == "float64" || ty == "int" || ty == "uint" || ty == "uint32") {
 		return a
 	}
+	// small non-negative integer constants survive every integer conversion unchanged
+	if a.Op == "c" && a.C.IsInt() && a.C.Sign() >= 0 && a.C.Cmp(big.NewRat(127, 1)) <= 0 {
+		switch ty {
+		case "uint8", "int8", "uint16", "int16", "int32", "int64", "uint64", "byte":
+			return a
+		}
+	}
 	return &Term{Op: "conv", S: ty, Args: []*Term{a}}
 }
 
@@ -252,6 +259,12 @@ func Cmp(op string, a, b *Term) *Term {
 		}
 		return K(0)
 	}
+	// x != y is represented as !(x == y) (exact for every Go type, NaN included), so
+	// `if a == b {A} else {B}` and `if a != b {B} else {A}` produce the same conditions.
+	// The ordered comparisons are not complemented: !(x < y) is not x >= y for NaN.
+	if op == "!=" {
+		return Not(&Term{Op: "cmp", S: "==", Args: []*Term{a, b}})
+	}
 	return &Term{Op: "cmp", S: op, Args: []*Term{a, b}}
 }
 
@@ -294,7 +307,23 @@ func Ite(c, a, b *Term) *Term {
 	if a.Key() == b.Key() {
 		return a
 	}
+	if a.IsOne() && b.IsZero() && isBoolTerm(c) {
+		return c // c ? true : false
+	}
 	return capTerm(&Term{Op: "ite", Args: []*Term{c, a, b}})
+}
+
+// isBoolTerm: t is 0/1 valued by construction.
+func isBoolTerm(t *Term) bool {
+	switch t.Op {
+	case "cmp", "not":
+		return true
+	case "c":
+		return t.IsZero() || t.IsOne()
+	case "ite":
+		return isBoolTerm(t.Args[1]) && isBoolTerm(t.Args[2])
+	}
+	return false
 }
 
 func capTerm(t *Term) *Term {
